@@ -29,7 +29,9 @@ Z3 == << M("w1", 33060, <<2017, 3, 31, 1, 2, 4>>, "stored", Run(66, 9), FALSE), 
          M("re\\po.txt", 33188, <<2017, 4, 30, 1, 2, 10>>, "stored", Run(66, 5), FALSE),
          \* (the directory flag is the archive's - the name ends with a slash -, the mode is shown as stored: a directory stored with
          \*  permission bits only, a file whose stored mode carries the type bits of a directory)
-         M("d2/", 493, <<2017, 4, 30, 1, 2, 12>>, "stored", <<>>, TRUE), M("odd", 16804, <<2017, 4, 30, 1, 2, 14>>, "stored", Run(66, 2), FALSE) >>
+         M("d2/", 493, <<2017, 4, 30, 1, 2, 12>>, "stored", <<>>, TRUE), M("odd", 16804, <<2017, 4, 30, 1, 2, 14>>, "stored", Run(66, 2), FALSE),
+         \* (the earliest time the format can store - what archivers write when they have none - and the next one: times like any other)
+         M("epoch", 33188, <<1980, 1, 1, 0, 0, 0>>, "stored", Run(66, 6), FALSE), M("epoch2", 33188, <<1980, 1, 1, 0, 0, 2>>, "deflated", Run(66, 7), FALSE) >>
 NoZip == <<>>
 F(i, p, nm, cont, zip, isz) == [id |-> i, parent |-> p, kind |-> "file", name |-> nm, content |-> cont, zip |-> zip, iszip |-> isz, truncate |-> -1, flip |-> 0, hasflip |-> FALSE]
 D(i, p, nm) == [id |-> i, parent |-> p, kind |-> "dir", name |-> nm, content |-> <<>>, zip |-> NoZip, iszip |-> FALSE, truncate |-> -1, flip |-> 0, hasflip |-> FALSE]
